@@ -160,7 +160,7 @@ func lockName(v ssa.Value) (string, ssa.Value) {
 		if !ok {
 			return "", nil
 		}
-		return n.Obj().Name() + "." + fieldName(x.X.Type(), x.Field), x.X
+		return tname(n.Obj()) + "." + fieldName(x.X.Type(), x.Field), x.X
 	case *ssa.Global:
 		return "global:" + x.Name(), nil
 	}
@@ -586,7 +586,7 @@ func relayFamily(m *Module) []*ssa.Function {
 	for _, f := range m.methodsOf(pkgAdapt, "plugin") {
 		for _, ci := range calls(f) {
 			if g := m.callee(ci.Common()); g != nil {
-				if rn := recvNamed(g); rn != nil && rn.Obj().Name() == "pluginType" && rn.Obj().Pkg().Path() == pkgAdapt && g.Signature.Results().Len() > 0 && !strings.HasPrefix(g.Name(), "is") {
+				if rn := recvNamed(g); rn != nil && tname(rn.Obj()) == "pluginType" && rn.Obj().Pkg().Path() == pkgAdapt && g.Signature.Results().Len() > 0 && !strings.HasPrefix(g.Name(), "is") {
 					out = append(out, f)
 					break
 				}
